@@ -313,6 +313,8 @@ C11_First == \A c \in Conns : out[c] # <<>> => out[c][1].t \in {"connect", "disc
 \* witness predicates (negated scenarios: TLC's counterexample is the schedule replayed on every run)
 Wit1 == ~(shut = "done" /\ \E c \in Conns : st[c] = "connected" /\ rd[c] = "up")
 Wit2 == ~(shut = "done" /\ \E c \in Conns : rd[c] = "up" /\ \E i \in (cbdone[c] + 1)..Len(cb[c]) : cb[c][i] = "connect")
+WitPushSend == ~(step.act = "Push" /\ step.kind = "send" /\ step.window)
+WitPushPub  == ~(step.act = "Push" /\ step.kind = "pub" /\ step.window)
 
 TypeOK == nenv <= MaxEnv
 View == <<st, auth, hub, rd, tk, armed, sub, spawned, cl, who, prev, shc, shut, cbdone, pushed, nenv, out, cb>>
